@@ -1,6 +1,6 @@
 """C13 — queries on a built world are total (termination, exception type); finiteness is not decided."""
 from .. import facts, run
-from ..rules import asserts, loop, pure
+from ..rules import asserts, dep, kernels, loop, pure, segments, sib
 
 
 def main(tier):
@@ -12,9 +12,17 @@ def main(tier):
     loop.loops(P, rep, R)
     loop.recursion(P, rep, R)
     asserts.throw_types(P, rep, R, floor=12)
-    rep.assumptions.append("finiteness of the returned numbers and absence of division by zero at degenerate points are NOT decided "
-                           "(numeric; see DESIGN.md §4 C13)")
+    # guards that keep queries from crashing or producing NaN, as far as their shape decides it
+    kernels.acos_clamp(P, rep)                 # NaN-absorbing clamp in front of acos
+    asserts.input_indexed_elements(P, rep)     # tables indexed by numbers from the file
+    segments.table_provenance(P, rep)          # per-section tables have one shape (K2): no out-of-bounds read between sections
+    sib.model_families(P, rep)                 # sibling implementations agree on their guards (zero-thickness, range, sentinel tests)
+    dep.surface_pairing(P, rep)
+    rep.assumptions.append("finiteness of the returned numbers and absence of division by zero at degenerate points are NOT decided in "
+                           "general (numeric; see DESIGN.md §4 C13); decided are only the shape of some guards: the NaN-absorbing clamp before "
+                           "acos, release-active arity checks of per-section tables, agreement of sibling models on their guards")
     rep.explanation = ("Termination: every loop on the query path has a recognised bounded shape and the three call-graph cycles "
-                       "match the frozen recursion table; every throw is of a std::exception type. Decides these structural "
-                       "facts only.")
+                       "match the frozen recursion table; every throw is of a std::exception type; guards against out-of-bounds table "
+                       "reads and against NaN from acos have the shape that makes them effective; sibling models agree on their guards. "
+                       "Decides these structural facts only.")
     return rep.finish()
